@@ -5,6 +5,9 @@
 HARNESSES = {
     "block": {"crate": "astria-conductor", "features": "verif-blobs", "test": "celestia::verif::driver",
               "driver": "driver-block", "timeout": 3600},
+    # sequencer side of the same area: commitments on real checked transactions, storage round trip, gRPC filter
+    "blockseq": {"crate": "astria-sequencer", "features": "verif-grpc", "test": "grpc::sequencer::verif::driver",
+                 "driver": "driver-block", "timeout": 3600},
 }
 
 _BLOCK_MODULES = ["Astria.Block.Model", "Astria.Block.Rfc", "Astria.Block.Chain", "Astria.Block.Group",
@@ -17,17 +20,18 @@ PROPS = {
         "level": "proof",
         "lean_modules": _BLOCK_MODULES + ["Astria.Properties.C07"],
         "theorems": ["Astria.C07_data_exact", "Astria.C07_honest_proposer_builds", "Astria.C07_proofs_verify",
-                     "Astria.C07_built_block_accepted", "Astria.C07_filter_serves_exactly", "Astria.C07_verifiers_sound",
+                     "Astria.C07_built_block_accepted", "Astria.C07_filter_serves_exactly", "Astria.C07_grpc_filter_serves_exactly",
+                     "Astria.C07_verifiers_sound",
                      "Astria.C07_full_tamper_evident", "Astria.C07_filtered_tamper_evident",
                      "Astria.C07_celestia_tamper_evident", "Astria.C07_receiver_attribution",
                      "Astria.C07_receiver_bound_partial", "Astria.C07_receiver_attribution_counterexample"],
-        "harnesses": ["block"],
-        "monitors": ["no_panic", "dump_parse", "built_ids_sorted_set", "built_data_exact", "built_proofs_verify",
+        "harnesses": ["block", "blockseq"],
+        "monitors": ["no_panic", "dump_parse", "commitment_matches_builder", "grpc_filter_exact", "built_ids_sorted_set", "built_data_exact", "built_proofs_verify",
                      "built_commitments", "honest_accepted", "accepted_equals_built", "accepted_proofs_verify",
                      "reencode", "filter_exact", "split_exact", "receiver_block_bound", "receiver_attribution",
                      "receiver_bound", "receiver_data_exact"],
-        "scope_regex": r"^block (reset|full|filtered|meta|blob|filter|split|celestia) ",
-        "nontrivial_regex": r"^block (reset .* => ok |(full|filtered|meta|blob) \S+ .* => (ok|err:(Rollup|Invalid|ExtendedCommitInfo/NotIn))|filter [0-9a-f]|split|celestia )",
+        "scope_regex": r"^block (reset|commit|grpcfilter|full|filtered|meta|blob|filter|split|celestia) ",
+        "nontrivial_regex": r"^block (reset .* => ok |(full|filtered|meta|blob) \S+ .* => (ok|err:(Rollup|Invalid|ExtendedCommitInfo/NotIn))|filter [0-9a-f]|grpcfilter [0-9a-f]|commit |split|celestia )",
         "thorough_seeds": 1,
         "search_seeds": 2,
         "rule": "in-crate harness (child module celestia::verif of astria-conductor). Per session: a generated block content (0..5 rollups, thorough 0..8; "
@@ -41,14 +45,19 @@ PROPS = {
                 "incl. all_rollup_ids edits); split_for_celestia -> SubmittedMetadata / SubmittedRollupData::try_from_raw (+ sweeps); and the REAL conductor "
                 "pipeline decode_raw_blobs (brotli, namespaces, list handling) -> verify_metadata (against a mocked sequencer RPC serving real signed commits) "
                 "-> reconstruct_blocks_from_verified_blobs for ~45 scenarios per rollup (honest, missing / foreign / re-attributed / tampered blobs, block "
-                "hash / chain id / height / root edits of the metadata, malformed list entries, wrong namespace, garbage blobs). Each line is replayed through "
+                "hash / chain id / height / root edits of the metadata, malformed list entries, wrong namespace, garbage blobs). A second in-crate harness "
+                "(grpc::sequencer::verif of astria-sequencer) runs the sequencer side on the same generator: generate_rollup_datas_commitment::<true> on REAL "
+                "CheckedTransactions (submissions spread over several transactions with transfers in between) and a real deposit map; put_sequencer_block "
+                "into a cnidarium storage -> commit -> the gRPC handlers get_sequencer_block and get_filtered_sequencer_block for every subset of <= 4 ids "
+                "(orders, repetitions, absent and malformed ids) -> the client-side try_from_raw of everything served. Each line is replayed through "
                 "the Lean model with a Lean SHA-256 (roots, proofs and error kinds compared byte for byte) and the property's spec is evaluated on the "
                 "implementation's own results. non-trivial = a built block, a receiver verdict that reached the Merkle checks, a filter/split, a conductor run; "
                 "distinct = distinct trace lines",
         "trusted_base": [KERNEL,
                          "hand-written model Astria/Block/Model.lean tied to astria-core (block/mod.rs, celestia.rs, primitive) and astria-conductor "
                          "(convert.rs, verify.rs, reconstruct.rs) by the correspondence run of this check",
-                         "harness /verif/harness/conductor/blobs.rs (text codec, error-kind extraction from Debug output, wiremock sequencer) + Lean driver "
+                         "harnesses /verif/harness/conductor/blobs.rs, /verif/harness/sequencer/grpc.rs, shared /verif/harness/block_codec.rs (text codec, error-kind "
+                         "extraction from Debug output, wiremock sequencer, cnidarium TempStorage) + Lean driver "
                          "(codec, Lean SHA-256)",
                          "astria-merkle's tree / proof construction is taken to be RFC 6962 (MTH and audit path): compared byte for byte on every generated "
                          "block, proved only for verification soundness (C08); sha2, prost, brotli, celestia-types, tendermint, ed25519"],
